@@ -110,6 +110,10 @@ def build_chunk(rng: random.Random, schema, rows, missing_enc="null"):
         return pa.array(rows, type=st)
     arrays = []
     hidden_len = {i: rng.randint(1, 3) for i, r in enumerate(rows) if r is None}
+    # the lists under a missing row may themselves be NULL and still span elements of the value buffers (what
+    # StructArray.flatten() of a hidden layout gives back): Arrow validates such arrays and calls them equal to the compact ones
+    null_spans = missing_enc == "hidden" and rng.random() < 0.4
+    mask = pa.array([r is None for r in rows], type=pa.bool_())
     for name, t in schema:
         lists = []
         for i, r in enumerate(rows):
@@ -119,8 +123,10 @@ def build_chunk(rng: random.Random, schema, rows, missing_enc="null"):
                 lists.append([])
             else:
                 lists.append([gen_value(rng, t) for _ in range(hidden_len[i])])
-        arrays.append(pa.array(lists, type=pa.list_(TYPES[t])))
-    mask = pa.array([r is None for r in rows], type=pa.bool_())
+        la = pa.array(lists, type=pa.list_(TYPES[t]))
+        if null_spans and len(rows) > 0:
+            la = pa.ListArray.from_arrays(la.offsets, la.values, mask=mask)
+        arrays.append(la)
     if len(rows) == 0:
         return pa.array(rows, type=st)
     return pa.StructArray.from_arrays(arrays, names=[n for n, _ in schema], mask=mask)
